@@ -989,6 +989,25 @@ def spectrum_case(case):
     for path, kind, why in ref.tree_diff(read, snapshot):
         r.check(False, 'b:file', 'b/file/%s%s' % (kind, path), why=why)
     r.observe(out.get('binned_spectrum'), out.get('binned_wlwidth'), sorted(out), flux)
+    # the SAME binner object then describes a second result on a different native grid with the same number of
+    # points (as a run over several models does): the second dictionary must describe its own grid, and the first
+    # dictionary must still hold what it held
+    wn2 = wn * (1.0 + 0.013 * np.arange(len(wn)) / max(len(wn) - 1, 1)) + 3.0
+    flux2 = flux[::-1] * 1.01
+    out2 = binner.generate_spectrum_output((wn2, flux2, tau, None), output_size=OutputSize[size])
+    r.check(ref.same_numbers(out2.get('native_wngrid'), wn2), 'b:second-output', 'b/second/native_wngrid/%s' % cls)
+    r.eq(out2.get('native_wlgrid'), ref.wl_of_wn(wn2), 'b:second-output', 'b/second/native_wlgrid/%s' % cls, rtol=1e-14)
+    if 'native_wnwidth' in out2 and len(wn2) > 1:
+        from mc.ref import binning as _rb
+        r.eq(out2['native_wnwidth'], _rb.midpoint_widths(wn2), 'b:second-output', 'b/second/native_wnwidth/%s' % cls,
+             rtol=1e-12)
+    if bl != 'native' and 'binned_spectrum' in out2:
+        fresh2 = make_binner(bl, case['grid'])[0]
+        s2_ = fresh2.bindown(wn2.copy(), flux2.copy())[1]
+        r.check(ref.same_numbers(out2['binned_spectrum'], s2_, exact=False, rtol=1e-12), 'b:second-output',
+                'b/second/binned_spectrum/%s' % cls)
+    for k, v in snapshot.items():
+        r.check(ref.same_numbers(out[k], v), 'b:first-output-intact', 'b/first-output-overwritten/%s' % cls, key=k)
     r.nontrivial = bl != 'native' or size != 'heavy'
     return r
 
